@@ -403,6 +403,16 @@ CORPUS = [
     {"bases": ["ef0", "dsgc"], "read_via": "direct", "read_via_y": "alias", "fam": "corpus-append", "ops": [],
      "write": W([1], "Y", "scratch", mode="a")},
     {"bases": ["ef1", "ef0"], "read_via": "direct", "fam": "corpus-append", "ops": [], "write": W([0], "X", "filelink", mode="r+")},
+    # (seed robustness) a DOMAIN holding an external cell measure: its external file is written too
+    {"bases": ["ef6", "ef1"], "read_via": "dslash", "fam": "corpus-external",
+     "ops": [{"op": "make_external", "i": 0, "j": 1, "new": True, "val": 2}, {"op": "get_domain", "i": 0, "variant": "call"}],
+     "write": dict(W([2], "Z", "envvar", external={"key": "E", "via": "tilde"}), as_list=True)},
+    {"bases": ["ef1", "ef0"], "read_via": "direct", "fam": "corpus-external",
+     "ops": [{"op": "make_external", "i": 0, "j": 0, "val": 1}, {"op": "get_domain", "i": 0, "variant": "attr"}],
+     "write": W([2], "Z", overwrite=False, external={"key": "E", "via": "alias"})},
+    {"bases": ["ef1", "ef0"], "read_via": "direct", "fam": "corpus-external",
+     "ops": [{"op": "make_external", "i": 0, "j": 0, "val": 1}, {"op": "get_domain", "i": 0, "variant": "call"}],
+     "write": W([2], "Z", external={"key": "X", "via": "scratch"})},
     # ---- second deepening round ---------------------------------------------------------
     # the list variable of a gathered field has no netCDF name (read from file, brought into memory)
     {"bases": ["gath", "ef0"], "read_via": "direct", "fam": "corpus-gathered",
@@ -529,6 +539,10 @@ def gen_cases(rng, tier):
         ops.append({"op": "make_external", "i": reg, "j": rng.randrange(2), "new": rng.random() < 0.5, "val": rng.randrange(3)})
         if rng.random() < 0.3:
             ops.append({"op": "touch", "i": reg, "variant": rng.choice(["cons_to_memory", "to_memory"]), "j": rng.randrange(8)})
+        if rng.random() < 0.15:   # the domain of the field, which holds the external cell measure as well
+            ops.append({"op": "get_domain", "i": reg, "variant": rng.choice(["call", "attr"])})
+            reg = n
+            n += 1
         w = {"regs": [reg], "mode": "w" if rng.random() < 0.9 else "a", "overwrite": rng.random() < 0.5, "fault": None,
              "external": rand_external(rng), "harmless": rng.choice([0, 0, 0, 3, 11])}
         w["target"], w["tvia"] = rng.choice([("Z", "direct"), ("Z", "alias"), ("Z", "scratch"), ("Y", "direct"),
